@@ -112,6 +112,25 @@ func c13Seq(t *core.Tape, large bool) string {
 	}
 	alpha := []string{"ACGT", "ACGTN", "ACDEFGHIKLMNPQRSTVWY", "acgt", "ACGTacgtNn", "ACDEFGHIKLMNPQRSTVWYXBZ*"}[t.Draw(6)]
 	b := make([]byte, l)
+	// low-complexity sequences (homopolymer runs, tandem repeats) are ordinary biology
+	// and compress a thousandfold: whatever sits between the file and the parser must
+	// not care
+	if lowc := t.Weighted(84, 8, 8); lowc > 0 && l > 0 {
+		unit := []byte{alpha[t.Draw(len(alpha))]}
+		if lowc == 2 {
+			unit = make([]byte, 2+t.Draw(7))
+			for i := range unit {
+				unit[i] = alpha[t.Draw(len(alpha))]
+			}
+		}
+		for i := range b {
+			b[i] = unit[i%len(unit)]
+		}
+		if b[0] == '*' {
+			b[0] = 'M'
+		}
+		return string(b)
+	}
 	if l > 20000 {
 		// cheap but non-periodic fill for very long sequences: a drawn seed drives an LCG
 		x := uint32(t.Draw(1<<30)) | 1
